@@ -229,7 +229,10 @@ def rule_get(ck):
     s304 = [(nd, c) for nd, c in call_sites(get, "self.set_status") if _status_is(c, 304)]
     ck.floor("C27.304", len(s304), 1, "set_status(304) sites")
     for nd, c in s304:
-        ck.ob("C27.304", get, c, holds(facts[nd.id], "self.should_return_304()", True), "304 is sent exactly under should_return_304()")
+        under = holds(facts[nd.id], "self.should_return_304()", True)
+        if not under and not any(q.is_call(c2, "self.should_return_304") for c2 in q.calls(get.node)):
+            raise AnalysisError("C27.304: get() does not call should_return_304(); the 304 decision is made in an unrecognised way")
+        ck.ob("C27.304", get, c, under, "304 is sent exactly under should_return_304()")
         reach = reachable_from(get.cfg, nd)
         ck.ob("C27.304", get, c, not (reach & body_nodes), "after set_status(304) no Content-Length, body write or content read is reachable (304 has no body)")
     # the 304 decision, when true, leads to 304 (no fall-through to the body): every should_return_304() true edge reaches a set_status(304)
@@ -242,10 +245,19 @@ def rule_get(ck):
     # --- 416
     s416 = [(nd, c) for nd, c in call_sites(get, "self.set_status") if _status_is(c, 416)]
     ck.floor("C27.416", len(s416), 1, "set_status(416) sites")
-    cr416 = lambda x: q.is_call(x, "self.set_header") and _hdr_is(x, "Content-Range") and _template(q.arg(x, 1, "value"))[0] == "bytes */{}"
+    def cr416(x):
+        if not (q.is_call(x, "self.set_header") and _hdr_is(x, "Content-Range")):
+            return False
+        v = resolve(get, q.arg(x, 1, "value"))
+        if isinstance(v, ast.Call) and q.call_attr(v) == "_get_content_range":
+            return False
+        t = _template(v)[0]
+        if t is None:
+            raise AnalysisError("C27.416: Content-Range value %s is built in an unrecognised way" % q.unparse(v))
+        return t == "bytes */{}"
     require_after(ck, "C27.416", get, lambda nd: any(nd.id == n2.id for n2, _ in s416), _node_pred(cr416), "416 carries 'Content-Range: bytes */<size>' on every path to the return")
     for nd, c in get.cfg.find(cr416):
-        t, holes = _template(q.arg(c, 1, "value"))
+        t, holes = _template(resolve(get, q.arg(c, 1, "value")))
         ck.ob("C27.416", get, c, len(holes) == 1 and q.dotted(holes[0]) == size, "the unsatisfied-range Content-Range reports the resource size (%s)" % size)
     for nd, c in s416:
         reach = reachable_from(get.cfg, nd)
@@ -380,7 +392,9 @@ def rule_304(ck):
     fi = ck.func(WEB, SFH + ".should_return_304")
     facts = must_facts(fi.cfg)
     # If-None-Match takes precedence: the etag check is returned under the header-present test
-    rets = [(nd, nd.ast) for nd in fi.cfg.stmt_nodes(lambda nd: nd.kind == "stmt" and isinstance(nd.ast, ast.Return) and nd.ast.value is not None and q.is_call(nd.ast.value, "self.check_etag_header"))]
+    rets = [(nd, nd.ast) for nd in fi.cfg.stmt_nodes(lambda nd: nd.kind == "stmt" and isinstance(nd.ast, ast.Return) and nd.ast.value is not None and q.is_call(expand(fi, nd.ast.value), "self.check_etag_header"))]
+    if not rets and any(q.is_call(c, "self.check_etag_header") for c in q.calls(fi.node)):
+        raise AnalysisError("should_return_304: the result of check_etag_header() is used in an unrecognised way")
     inm = [t for t in fi.cfg.stmt_nodes(lambda nd: nd.kind == "test" and "If-None-Match" in q.literal_strs(nd.ast))]
     ck.ob("C27.conditional", fi, fi.node, bool(inm) and bool(rets), "should_return_304 consults If-None-Match and answers with check_etag_header() when it is present", construct="If-None-Match branch")
     for nd, r in rets:
@@ -395,9 +409,9 @@ def rule_304(ck):
     parses = [c for c in q.calls(fi.node) if q.call_attr(c) in ("parsedate_to_datetime", "parsedate", "parsedate_tz", "strptime")]
     ck.floor("C27.conditional", len(parses), 1, "date parse calls")
     for c in parses:
-        hs = [q.protected_by(pm, c, e) for e in ("ValueError", "TypeError", "IndexError")]
+        hs = [q.protected_by(pm, c, e) for e in ("ValueError", "TypeError", "IndexError", "OverflowError")]
         ok = all(h is not None for h in hs)
-        ck.ob("C27.conditional", fi, c, ok, "an unparseable If-Modified-Since cannot escape (ValueError/TypeError/IndexError handled)")
+        ck.ob("C27.conditional", fi, c, ok, "an unparseable If-Modified-Since cannot escape (ValueError/TypeError/IndexError/OverflowError from the date parser are all handled)")
         for h in {id(h): h for h in hs if h is not None}.values():
             rr = [x for st in h.body for x in q.walk_local(st) if isinstance(x, ast.Return)]
             ck.ob("C27.conditional", fi, h, bool(rr) and all(q.is_const(x.value, False) for x in rr) and isinstance(h.body[-1], ast.Return), "an unparseable date means 'not 304' (handler returns False)", construct="date parse handler")
@@ -447,6 +461,11 @@ def _range_regions(ck):
         raise AnalysisError("C27.range-model: the try block converting the two positions was not found at the top level of _parse_request_range (unknown idiom)")
     tr = body[ti[0]]
     conv = [a for a in tr.body if isinstance(a, ast.Assign) and isinstance(a.value, ast.Call) and q.call_attr(a.value) in ("_int_or_none", "int") and isinstance(a.targets[0], ast.Name)]
+    for a in tr.body:   # `start, end = (conv(x), conv(y))`
+        if isinstance(a, ast.Assign) and isinstance(a.targets[0], ast.Tuple) and isinstance(a.value, ast.Tuple) and len(a.value.elts) == len(a.targets[0].elts):
+            for t_, v_ in zip(a.targets[0].elts, a.value.elts):
+                if isinstance(t_, ast.Name) and isinstance(v_, ast.Call) and q.call_attr(v_) in ("_int_or_none", "int"):
+                    conv.append(ast.Assign(targets=[t_], value=v_))
     if len(conv) != 2:
         raise AnalysisError("C27.range-model: expected two integer conversions (first, last) in _parse_request_range")
     # which is first / last: order of the partition pieces they convert
@@ -713,6 +732,8 @@ def _swap_set_headers(root):
 
 
 MUTANTS = [
+    ("seeded C27-adv4: date-parser handler narrowed to (TypeError, ValueError): OverflowError -> 500", _w(SFH + ".should_return_304", lambda root: _narrow_handler(root, "(TypeError, ValueError)")), "C27.conditional"),
+    ("date-parser handler narrowed to ValueError only", _w(SFH + ".should_return_304", lambda root: _narrow_handler(root, "ValueError")), "C27.conditional"),
     ("seeded C27-adv2: naive If-Modified-Since normalised with astimezone(utc) (local-time reading, may raise)", _w(SFH + ".should_return_304", replace_stmt(lambda st: isinstance(st, ast.If) and "tzinfo" in _src(st.test), lambda st: [parse_stmt("if_since = if_since.astimezone(datetime.timezone.utc)")])), "C27.conditional"),
     ("seeded C27-adv1: parser tail flattened to truthiness ('elif end:'), bytes=0-0 -> (0, 0)", _h("_parse_request_range", lambda root: _flatten_tail(root)), ("C27.none-vs-zero", "C27.range-model")),
     ("none-vs-zero: get() normalises a negative start only 'if start' (truthiness)", _w(SFH + ".get", replace_expr(lambda n: isinstance(n, ast.BoolOp) and _src(n) == "start is not None and start < 0", lambda n: parse_expr("start and start < 0"))), "C27.none-vs-zero"),
@@ -789,5 +810,14 @@ def _flatten_tail(root):
                 "        start, end = -end, None\n"
                 "elif end:\n"
                 "    end += 1\n").body
+            return True
+    return False
+
+
+def _narrow_handler(root, to):
+    for node in ast.walk(root):
+        if isinstance(node, ast.Try) and "parsedate" in _src(node):
+            for h in node.handlers:
+                h.type = parse_expr(to)
             return True
     return False
